@@ -3,20 +3,27 @@
    block = ( rules ( item.. ) )     rules as in Run/C13.v [dec_rules]
    item  = (0 op)                   one StateDB call, op as in Run/C13.v [dec_op]
          | (1)                      IntermediateRoot(rules) between transactions
-         | (2 swap ( op.. ))        c := s.Copy(); when swap = 1 the COPY continues as the main state and the
-                                    original becomes the side branch; the ops run on the side branch, which
-                                    stays alive until the end of the block
+         | (2 swap ( op.. ) mode)   c := s.Copy(); when swap = 1 the COPY continues as the main state and the
+                                    original becomes the side branch; the ops run on the side branch.
+                                    mode 0: the side branch stays alive to the end of the block, where it is only
+                                    hashed (IntermediateRoot); 1: ... where it is COMMITTED (and reopened) BEFORE the
+                                    main state; 2: ... AFTER the main state; 3: it is committed and reopened
+                                    immediately, while the main state carries on in the same block
+         | (3 i ( op.. ) mode)      the same for a copy of the i-th live side branch (a copy of a copy)
    The chain starts from the empty state; every block runs on state.New(previous root).
    observation = ( blockobs.. ), blockobs = ( itemobs.. sideroot.. x<root1> pdump x<root2> pdump' )
      itemobs for (0 op) = out (0 none | 1 panic | id+2);  for (1) = ( x<root> pdump );
-     for (2 ..) = ( (out..) dump_side dump_main );  sideroot = x<root> of IntermediateRoot on a side branch
-     at block end (or the error); root1 = IntermediateRoot, pdump = persistent getters before Commit,
-     root2 = Commit, pdump' = persistent getters of state.New(root2).
+     for (2 ..)/(3 ..) = ( (out..) dump_side dump_main ) followed, for mode 3, by ( commitobs );
+     at block end, for every live side branch in order: mode 0: x<root> of IntermediateRoot (or the error),
+     mode 1: ( commitobs ); then the main state's commitobs inline; then ( commitobs ) of the mode 2 side branches;
+     commitobs = x<root1> pdump x<root2> pdump' : root1 = IntermediateRoot, pdump = persistent getters before
+     Commit, root2 = Commit, pdump' = persistent getters of state.New(root2).  All commits go into the one
+     shared database.
    An error yields (-2 class) in place of the remaining observations of the block and stops the run.
    Harness limitation (both sides): with the path scheme or a snapshot tree (cfg bits 0, 1) a chain
    whose new root equals an EARLIER root of the same chain other than its parent cannot be added to
    the layer tree (layers are keyed by root; real chains never revisit a root because nonces grow);
-   such a block ends with ( .. x<root1> pdump 3 ) before Commit and the run stops. *)
+   such a commitobs is ( x<root1> pdump 3 ), nothing is committed, and if it was the main state the run stops. *)
 From stdpp Require Import gmap.
 From GV Require Import Lib.Sx Keccak.Sponge Trie.Node State.Ref State.Journal State.Commit Run.C13.
 Local Open Scope N_scope.
@@ -46,85 +53,147 @@ Fixpoint run_ops_c (cs : cstate) (ops : list op) : cstate * list sx :=
       (csf, (if j_bad (c_j cs') then SErr 99 else enc_out w) :: l)
   end.
 
-(* the items of one block: Some (main, sides, observations, stopped) *)
-Fixpoint run_items (r : rules) (p : pdb) (cs : cstate) (sides : list cstate) (items : list sx)
-  : option (cstate * list cstate * list sx * bool) :=
+(* IntermediateRoot; Commit; state.New(root): observations, the database afterwards, the roots
+   seen, and the reopened state when everything succeeded *)
+Definition commit_obs (layered : bool) (seen : list (list N)) (r : rules) (p : pdb) (cs : cstate)
+  : list sx * pdb * list (list N) * option cstate :=
+  match intermediate_root K r p cs with
+  | CErr e => ([serr e], p, seen, None)
+  | COk (root1, cs1) =>
+      if layered && negb (bool_decide (root1 = c_root cs1)) && bool_decide (root1 ∈ seen)
+      then ([SB root1; pdump cs1; SI 3], p, seen, None)
+      else
+      match commit K r p cs1 with
+      | CErr e => ([SB root1; pdump cs1; serr e], p, seen, None)
+      | COk (root2, p') =>
+          match open K addrs4 slots4 p' root2 with
+          | CErr e => ([SB root1; pdump cs1; SB root2; serr e], p', root2 :: seen, None)
+          | COk cs' => ([SB root1; pdump cs1; SB root2; pdump cs'], p', root2 :: seen, Some cs')
+          end
+      end
+  end.
+
+Record rs := { r_p : pdb; r_seen : list (list N); r_main : cstate; r_sides : list (cstate * N) }.
+
+(* a copy item: the branch to copy, the ops of the side branch, its mode *)
+Definition do_copy (layered : bool) (r : rules) (st : rs) (from_side : option nat) (sw : bool)
+           (ops : list op) (mode : N) : option (rs * list sx) :=
+  let src := match from_side with
+             | None => Some (r_main st)
+             | Some i => fst <$> (r_sides st !! i)
+             end in
+  match src with
+  | None => None
+  | Some src =>
+      let c := copy src in
+      let '(keep, side) := if sw then (c, src) else (src, c) in
+      let '(side', outs) := run_ops_c side ops in
+      let st1 := match from_side with
+                 | None => {| r_p := r_p st; r_seen := r_seen st; r_main := keep; r_sides := r_sides st |}
+                 | Some i => {| r_p := r_p st; r_seen := r_seen st; r_main := r_main st;
+                                r_sides := alter (λ x, (keep, x.2)) i (r_sides st) |}
+                 end in
+      let o1 := SL [SL outs; fdump side'; fdump keep] in
+      if mode =? 3 then
+        let '(co, p', seen', _) := commit_obs layered (r_seen st1) r (r_p st1) side' in
+        Some ({| r_p := p'; r_seen := seen'; r_main := r_main st1; r_sides := r_sides st1 |}, [o1; SL co])
+      else
+        Some ({| r_p := r_p st1; r_seen := r_seen st1; r_main := r_main st1;
+                 r_sides := r_sides st1 ++ [(side', mode)] |}, [o1])
+  end.
+
+(* the items of one block: Some (state, observations, stopped) *)
+Fixpoint run_items (layered : bool) (r : rules) (st : rs) (items : list sx) : option (rs * list sx * bool) :=
   match items with
-  | [] => Some (cs, sides, [], false)
+  | [] => Some (st, [], false)
   | SL [SI 0%Z; o] :: rest =>
       match dec_op o with
       | None => None
       | Some o =>
-          let '(cs', w) := step_c K cs o in
-          match run_items r p cs' sides rest with
-          | Some (m, s, l, st) => Some (m, s, (if j_bad (c_j cs') then SErr 99 else enc_out w) :: l, st)
+          let '(cs', w) := step_c K (r_main st) o in
+          match run_items layered r {| r_p := r_p st; r_seen := r_seen st; r_main := cs'; r_sides := r_sides st |} rest with
+          | Some (st', l, b) => Some (st', (if j_bad (c_j cs') then SErr 99 else enc_out w) :: l, b)
           | None => None
           end
       end
   | SL [SI 1%Z] :: rest =>
-      match intermediate_root K r p cs with
-      | CErr e => Some (cs, sides, [serr e], true)
+      match intermediate_root K r (r_p st) (r_main st) with
+      | CErr e => Some (st, [serr e], true)
       | COk (root, cs') =>
-          match run_items r p cs' sides rest with
-          | Some (m, s, l, st) => Some (m, s, SL [SB root; pdump cs'] :: l, st)
+          match run_items layered r {| r_p := r_p st; r_seen := r_seen st; r_main := cs'; r_sides := r_sides st |} rest with
+          | Some (st', l, b) => Some (st', SL [SB root; pdump cs'] :: l, b)
           | None => None
           end
       end
-  | SL [SI 2%Z; sw; SL ops] :: rest =>
-      match sx_bool sw, opt_map dec_op ops with
-      | Some sw, Some ops =>
-          let c := copy cs in
-          let '(main, side) := if sw then (c, cs) else (cs, c) in
-          let '(side', outs) := run_ops_c side ops in
-          match run_items r p main (sides ++ [side']) rest with
-          | Some (m, s, l, st) => Some (m, s, SL [SL outs; fdump side'; fdump main] :: l, st)
+  | SL [SI 2%Z; sw; SL ops; md] :: rest =>
+      match sx_bool sw, opt_map dec_op ops, sx_N md with
+      | Some sw, Some ops, Some md =>
+          match do_copy layered r st None sw ops md with
+          | Some (st1, o1) =>
+              match run_items layered r st1 rest with
+              | Some (st', l, b) => Some (st', o1 ++ l, b)
+              | None => None
+              end
           | None => None
           end
-      | _, _ => None
+      | _, _, _ => None
+      end
+  | SL [SI 3%Z; i; SL ops; md] :: rest =>
+      match sx_nat i, opt_map dec_op ops, sx_N md with
+      | Some i, Some ops, Some md =>
+          match do_copy layered r st (Some i) false ops md with
+          | Some (st1, o1) =>
+              match run_items layered r st1 rest with
+              | Some (st', l, b) => Some (st', o1 ++ l, b)
+              | None => None
+              end
+          | None => None
+          end
+      | _, _, _ => None
       end
   | _ => None
   end.
 
-Definition side_root (r : rules) (p : pdb) (c : cstate) : sx :=
-  match intermediate_root K r p c with COk (root, _) => SB root | CErr e => serr e end.
-
-(* the end of a block: (observations, next state) ; None = stop *)
-Definition end_block (layered : bool) (seen : list (list N)) (r : rules) (p : pdb) (cs : cstate)
-  : list sx * option (pdb * cstate) :=
-  match intermediate_root K r p cs with
-  | CErr e => ([serr e], None)
-  | COk (root1, cs1) =>
-      if layered && negb (bool_decide (root1 = c_root cs1)) && bool_decide (root1 ∈ seen)
-      then ([SB root1; pdump cs1; SI 3], None)
+(* side branches at block end; [phase] false = before the main state (modes 0 and 1), true = after (mode 2) *)
+Fixpoint end_sides (layered : bool) (phase : bool) (r : rules) (p : pdb) (seen : list (list N))
+         (sides : list (cstate * N)) : list sx * pdb * list (list N) :=
+  match sides with
+  | [] => ([], p, seen)
+  | (c, md) :: rest =>
+      if phase then
+        if md =? 2 then
+          let '(co, p', seen', _) := commit_obs layered seen r p c in
+          let '(l, p'', seen'') := end_sides layered phase r p' seen' rest in (SL co :: l, p'', seen'')
+        else end_sides layered phase r p seen rest
       else
-      match commit K r p cs1 with
-      | CErr e => ([SB root1; pdump cs1; serr e], None)
-      | COk (root2, p') =>
-          match open K addrs4 slots4 p' root2 with
-          | CErr e => ([SB root1; pdump cs1; SB root2; serr e], None)
-          | COk cs' => ([SB root1; pdump cs1; SB root2; pdump cs'], Some (p', cs'))
-          end
-      end
+        if md =? 0 then
+          let o := match intermediate_root K r p c with COk (root, _) => SB root | CErr e => serr e end in
+          let '(l, p'', seen'') := end_sides layered phase r p seen rest in (o :: l, p'', seen'')
+        else if md =? 1 then
+          let '(co, p', seen', _) := commit_obs layered seen r p c in
+          let '(l, p'', seen'') := end_sides layered phase r p' seen' rest in (SL co :: l, p'', seen'')
+        else end_sides layered phase r p seen rest
   end.
 
 Fixpoint run_blocks (layered : bool) (seen : list (list N)) (p : pdb) (cs : cstate) (blocks : list sx) : list sx :=
   match blocks with
   | [] => []
-  | SL [rs; SL items] :: rest =>
-      match sx_N rs with
+  | SL [rs0; SL items] :: rest =>
+      match sx_N rs0 with
       | None => [SErr 1]
       | Some rn =>
           let r := dec_rules rn in
-          match run_items r p cs [] items with
+          match run_items layered r {| r_p := p; r_seen := seen; r_main := cs; r_sides := [] |} items with
           | None => [SErr 2]
-          | Some (m, sides, l, true) => [SL l]
-          | Some (m, sides, l, false) =>
-              let sr := map (side_root r p) sides in
-              let '(e, nxt) := end_block layered seen r p m in
-              SL (l ++ sr ++ e) ::
+          | Some (st, l, true) => [SL l]
+          | Some (st, l, false) =>
+              let '(s1, p1, seen1) := end_sides layered false r (r_p st) (r_seen st) (r_sides st) in
+              let '(mo, p2, seen2, nxt) := commit_obs layered seen1 r p1 (r_main st) in
               match nxt with
-              | Some (p', cs') => run_blocks layered (c_root cs' :: seen) p' cs' rest
-              | None => []
+              | None => [SL (l ++ s1 ++ mo)]
+              | Some cs' =>
+                  let '(s2, p3, seen3) := end_sides layered true r p2 seen2 (r_sides st) in
+                  SL (l ++ s1 ++ mo ++ s2) :: run_blocks layered seen3 p3 cs' rest
               end
           end
       end
